@@ -32,6 +32,19 @@ import from LB;
 import from LbDom, MachineInteger, String;
 stdout << "@ " << lbf(lbc) << " " << lbs << newline;
 '''
+LC = '''#include "aldor"
+LcDom: with { lcf: MachineInteger -> MachineInteger; lcs: String } == add {
+	lcf(n: MachineInteger): MachineInteger == n * n - 7;
+	lcs: String == "another member";
+}
+'''
+CL2 = '''#include "aldor"
+#include "aldorio"
+#library LB "%s"
+import from LB;
+import from LbDom, LcDom, MachineInteger, String;
+stdout << "@ " << lbf(lbc) << " " << lbs << " " << lcf(lbc) << " " << lcs << newline;
+'''
 MAINP = '''#include "aldor"
 #include "aldorio"
 import from MachineInteger, Integer, String, List MachineInteger;
@@ -45,6 +58,8 @@ CONSUMERS = {
     "fm2c": ("lb.fm", lambda tc: aldor.aldor_cmd(tc, "aldor", ["-Fc=fromfm.c"], ["lb.fm"]), ["fromfm.c"]),
     "client-ao": ("lb.ao", lambda tc: aldor.aldor_cmd(tc, "aldor", ["-Ginterp"], ["cl.as"]), []),
     "client-al": ("liblb.al", lambda tc: aldor.aldor_cmd(tc, "aldor", ["-Ginterp"], ["cl2.as"]), []),
+    # the library unit is the LAST of two archive members: its sections lie at a non-zero offset of the archive stream
+    "client-al2": ("liblb2.al", lambda tc: aldor.aldor_cmd(tc, "aldor", ["-Ginterp"], ["cl3.as"]), []),
     "interp-ao": ("p.ao", lambda tc: aldor.aldor_cmd(tc, "aldor", ["-Ginterp", "-laldor"], ["p.ao"]), []),
 }
 
@@ -57,13 +72,19 @@ def prepare(tc, base):
     R.write(os.path.join(base, "cl.as"), CL % "lb.ao")
     R.write(os.path.join(base, "cl2.as"), CL % "liblb.al")
     R.write(os.path.join(base, "p.as"), MAINP)
+    R.write(os.path.join(base, "lc.as"), LC)
+    R.write(os.path.join(base, "cl3.as"), CL2 % "liblb2.al")
+    r3 = aldor.compile_(tc, base, ["lc.as"], ["-Fao"])
+    if not r3.ok:
+        return None
     r = aldor.compile_(tc, base, ["lb.as"], ["-Fao", "-Ffm"])
     r2 = aldor.compile_(tc, base, ["p.as"], ["-Fao"])
     if not (r.ok and r2.ok and os.path.exists(os.path.join(base, "lb.ao"))):
         return None
     subprocess.run(["ar", "cr", "liblb.al", "lb.ao"], cwd=base, check=True)
+    subprocess.run(["ar", "cr", "liblb2.al", "lc.ao", "lb.ao"], cwd=base, check=True)
     files = {}
-    for n in ("lb.ao", "lb.fm", "liblb.al", "p.ao", "cl.as", "cl2.as"):
+    for n in ("lb.ao", "lb.fm", "liblb.al", "liblb2.al", "p.ao", "cl.as", "cl2.as", "cl3.as"):
         files[n] = open(os.path.join(base, n), "rb").read()
     return files
 
@@ -77,7 +98,7 @@ def run_consumer(tc, files, cname, damaged_bytes, tag):
         for n, b in files.items():
             if n == target:
                 continue
-            if cname in ("client-ao",) and n == "liblb.al":
+            if cname in ("client-ao",) and n.endswith(".al"):
                 continue
             R.write(os.path.join(wd, n), b)
         R.write(os.path.join(wd, target), damaged_bytes)
@@ -109,6 +130,22 @@ def judge(tc, r, produced, ref):
     return None
 
 
+def al_in_header(data, off):
+    """is byte `off` of the ar archive part of the archive magic, a member header, or the header / section table of a member?"""
+    if off < 8:
+        return True
+    p = 8
+    while p + 60 <= len(data):
+        try:
+            size = int(data[p + 48:p + 58].decode("ascii").strip())
+        except ValueError:
+            return False
+        if p <= off < p + 60 + AO_HEADER:
+            return True
+        p += 60 + size + (size & 1)
+    return False
+
+
 def _work(args):
     tc, files, refs, jobs, collect = args
     ev = Ev()
@@ -134,10 +171,8 @@ def _work(args):
             region = "body"
             if target.endswith(".ao") and dmg[1] < AO_HEADER:
                 region = "header"
-            elif target.endswith(".al"):
-                st = orig.find(files["lb.ao"][:16])
-                if dmg[1] < st + AO_HEADER:
-                    region = "header"
+            elif target.endswith(".al") and al_in_header(orig, dmg[1]):
+                region = "header"
             desc = {"kind": kind, "site": site, "consumer": cname, "damage": dmg[0], "region": region,
                     "what": "%s: %s after %s of %s at %s: %s" % (cname, kind + (" [" + site + "]" if site else ""), dmg[0], target, dmg[1:], r.text()[-160:].replace("\n", " | "))}
             if collect:
